@@ -12,7 +12,7 @@ def build(tier):
     q = tier == "quick"
     nl = len(L.LINES)
     nlq = 9 if q else nl
-    nc = 3 if q else len(L.CODES)
+    nc = 3 if q else 5
     src = hgen.preamble("C06", tier, ROOT) + "import vlib.hlib.c06 as L\n"
     conds = []
     T = 150 if q else 900
